@@ -681,6 +681,13 @@ func (loader *Loader) resolveHeaderRef(doc *T, component *HeaderRef, documentPat
 			return err
 		}
 	}
+	for _, name := range componentNames(value.Examples) {
+		if example := value.Examples[name]; example != nil {
+			if err := loader.resolveExampleRef(doc, example, documentPath); err != nil {
+				return err
+			}
+		}
+	}
 	return nil
 }
 
@@ -749,6 +756,13 @@ func (loader *Loader) resolveParameterRef(doc *T, component *ParameterRef, docum
 	if schema := value.Schema; schema != nil {
 		if err := loader.resolveSchemaRef(doc, schema, documentPath, []string{}); err != nil {
 			return err
+		}
+	}
+	for _, name := range componentNames(value.Examples) {
+		if example := value.Examples[name]; example != nil {
+			if err := loader.resolveExampleRef(doc, example, documentPath); err != nil {
+				return err
+			}
 		}
 	}
 	return nil
